@@ -251,7 +251,11 @@ func runC16(c *Ctx) {
 				return
 			}
 			// value looked up from the table
-			lk, ok := strip(mu.Value).(*ssa.Lookup)
+			mv := strip(mu.Value)
+			if ex, isEx := mv.(*ssa.Extract); isEx && ex.Index == 0 {
+				mv = ex.Tuple // comma-ok form: v, ok := table[name]
+			}
+			lk, ok := mv.(*ssa.Lookup)
 			if !ok {
 				return
 			}
